@@ -318,6 +318,41 @@ def run_stress(nthreads, battery):
     return {"events": events, "forced": 0, "deviated": 0}
 
 
+def run_shared(nthreads, battery):
+    """ONE converter, created by the main thread, used by many threads at once while its dispatch caches are
+    still cold (every hook function is generated on first use, possibly by several threads at the same time)."""
+    sys.setswitchinterval(1e-6)
+    from lsprotocol import converters, types
+    events = []
+    try:
+        conv = converters.get_converter()
+        events.append({"e": "Create", "conv": "shared", "cfg": "fresh", "ok": True, "exc": ""})
+    except BaseException as e:  # noqa: BLE001
+        events.append({"e": "Create", "conv": "shared", "cfg": "fresh", "ok": False, "exc": type(e).__name__ + ": " + str(e)[:120]})
+        return {"events": events, "forced": 0, "deviated": 0}
+    start = threading.Barrier(nthreads)
+    got = {}
+
+    def body(i):
+        start.wait()
+        # every thread walks the battery from another offset so that first uses collide on different classes
+        k = (i * 7) % max(1, len(battery))
+        order = list(range(k, len(battery))) + list(range(k))
+        evs = probe_events("shared", "d", conv, types, [battery[j] for j in order])
+        for e, j in zip(evs, order):
+            e["input"] = j
+        got[i] = evs
+
+    ts = [threading.Thread(target=body, args=(i,), daemon=True) for i in range(nthreads)]
+    for t in ts:
+        t.start()
+    for t in ts:
+        t.join(120)
+    for i in range(nthreads):
+        events.extend(got.get(i, [{"e": "Create", "conv": "t%d" % i, "cfg": "fresh", "ok": False, "exc": "thread did not finish"}]))
+    return {"events": events, "forced": 0, "deviated": 0}
+
+
 def main(argv):
     mode = argv[1]
     battery = json.load(open(argv[3]))
@@ -325,6 +360,8 @@ def main(argv):
         out = run_sched(json.load(open(argv[2])), battery)
     elif mode == "hist":
         out = run_hist(json.load(open(argv[2])), battery)
+    elif mode == "shared":
+        out = run_shared(int(argv[2]), battery)
     else:
         out = run_stress(int(argv[2]), battery)
     print(json.dumps(out))
